@@ -49,7 +49,7 @@ pub enum Aff {
 pub struct Cons {
     pub notnull: [bool; NC],
     pub has_dflt: [bool; NC],
-    pub dflt: [i64; NC],
+    pub dflt: [i32; NC],
     pub uniq: [bool; NC],
 }
 pub const NOCONS: Cons = Cons { notnull: [false; NC], has_dflt: [false; NC], dflt: [0; NC], uniq: [false; NC] };
@@ -562,7 +562,7 @@ pub fn insert(c: usize, ti: usize, mut row: [Val; NC], listed: [bool; NC], confl
         // NOT NULL column under OR REPLACE
         let cons = db().t[ti].cons;
         if cons.has_dflt[k] && (!listed[k] || (matches!(row[k], Val::Null) && cons.notnull[k] && matches!(conflict, Conflict::Replace))) {
-            row[k] = Val::Int(cons.dflt[k]);
+            row[k] = Val::Int(cons.dflt[k] as i64);
         }
         row[k] = store(ti, k, row[k]);
         k += 1;
